@@ -177,8 +177,78 @@ def r4(F, rep):
             detail="the component stage and the collection stage must use the same force-timing convention", func=a.q)
 
 
+def norm_cache(F, rep, rid):
+    """The normalisation sum over active components is a cache of the components' coefficients and enabled flags."""
+    rep.rule(rid, "the cached normalisation active_cvc_square_norm (used to weight total forces and Jacobian terms) is "
+                  "recomputed whenever its inputs change: every colvar member function that re-initialises a component "
+                  "(cvc::init on an element of cvcs: componentCoeff may change) or switches a component on or off recomputes the "
+                  "sum afterwards, itself or through a callee that does so unconditionally, under no narrower condition than "
+                  "the change")
+    from .rules_c10 import lvalue_writes
+
+    def recomputes(g):
+        """sites in g that recompute the cache: a write to the field, or a call of a function that does so unguarded."""
+        out = [w for w, t in lvalue_writes(g) if X.key(t, g) == "this.active_cvc_square_norm"]
+        for c in X.calls(g):
+            h = F.funcs.get(c.get("callee"))
+            if h is not None and h.cls == "colvar" and h.m != g.m:
+                ws = [w for w, t in lvalue_writes(h) if X.key(t, h) == "this.active_cvc_square_norm"]
+                # the callee recomputes unconditionally: its write is guarded by nothing but the loop over the
+                # components (and their own enabled test)
+                if any(all("cvcs" in X.key(h.nodes[cid], h) for cid, pol in h.cfg.real_guards(w)) for w in ws):
+                    out.append(c)
+        return out
+    n = 0
+    for g in F.funcs.values():
+        if g.cls != "colvar" or not g.cfg.ok or "/src/" not in g.file:
+            continue
+        changes = []
+        for c in X.calls(g):
+            if c["k"] != "CXXMemberCallExpr" or X.receiver(c) is None:
+                continue
+            rk = X.key(X.receiver(c), g)
+            if "this.cvcs" not in rk:
+                continue
+            nm = X.callee_name(c)
+            if nm == "init" or (nm in ("set_enabled", "enable", "disable") and X.call_args(c) and "f_cvc_active" in X.key(X.call_args(c)[0], g)):
+                changes.append(c)
+        if not changes:
+            continue
+        rec = recomputes(g)
+        for c in changes[:1]:
+            n += 1
+            after = [r for r in rec if g.cfg.can_reach(c, r)]
+            gc = set(g.cfg.real_guards(c))
+            ok = any(set(g.cfg.real_guards(r)) <= gc | {x for x in g.cfg.real_guards(r) if "size()" in X.key(g.nodes[x[0]], g) and x in gc} for r in after)
+            # the recompute may sit after the loop that contains the change: its guards must be a subset of the guards
+            # of that loop
+            if not ok:
+                loops = [a for a in g.ancestors(c) if a["k"] in ("ForStmt", "CXXForRangeStmt")]
+                if loops:
+                    outer = loops[-1]
+                    go = set(g.cfg.real_guards(outer["c"][1])) if outer["k"] == "ForStmt" and outer["c"][1] is not None else set()
+
+                    def error_exit_guard(cid, pol):
+                        """the guard only excludes a branch that raises an error and returns"""
+                        for s in g.walk():
+                            if s["k"] == "IfStmt":
+                                cs = s["c"]
+                                cn = cs[1] if len(cs) == 4 else cs[0]
+                                if cn is not None and any(x["i"] == cid for x in g.walk(cn)):
+                                    br = cs[-2] if not pol else cs[-1]
+                                    return br is not None and X.mentions(br, lambda y: y["k"] == "CallExpr" and y.get("cq") == "colvarmodule::error")
+                        return False
+                    ok = any(all(error_exit_guard(cid, pol) for cid, pol in set(g.cfg.real_guards(r)) - go) for r in after)
+            rep.add(rid, "%s|%s" % (g.q, X.callee_name(c)), g.loc(c), "%s changes a component (%s) and %s" % (
+                g.q, X.callee_name(c), "recomputes the normalisation afterwards" if ok else "does NOT recompute active_cvc_square_norm afterwards (%d candidate site(s))" % len(after)),
+                ok, detail="total force and Jacobian term would be weighted with the coefficients of the previous configuration", func=g.q)
+    if n < 2:
+        raise AnalysisBroken("%s: only %d functions that change components found" % (rid, n))
+
+
 def run(F, rep, tier):
     r1(F, rep)
     r2(F, rep)
     r3(F, rep)
     r4(F, rep)
+    norm_cache(F, rep, "C07-R5")
